@@ -15,7 +15,9 @@ entry = ob.get(pid, {})
 body = sys.stdin.read().strip()
 if body:
     entry.update(json.loads(body))
-entry["theorems"] = names + extra
+# names registered earlier from other modules (Proofs/*) are kept
+kept = [t for t in entry.get("theorems", []) if not t.startswith(f"BoolFn.{pid}.") and t not in extra]
+entry["theorems"] = names + kept + extra
 ob[pid] = entry
 json.dump(ob, open(os.path.join(ROOT, "obligations.json"), "w"), indent=1, ensure_ascii=False)
 print(pid, len(entry["theorems"]), "theorems")
